@@ -971,7 +971,9 @@ class Evaluator:
         """Saturation is looked through only inside the documented overflow guard `save_exp`
         (whose clipped exponents are checked separately, kin.foreign_saturation / c04.clipped_exponentials);
         a clip / maximum / minimum anywhere else is part of the value and stays visible as an opaque atom."""
-        return self.atoms.clip_transparent and bool(self.call_stack) and str(self.call_stack[-1]).endswith("save_exp")
+        # (a local helper inside save_exp is still inside save_exp)
+        inner = [str(f_) for f_ in self.call_stack if not str(f_).startswith("<local>.")]
+        return self.atoms.clip_transparent and bool(inner) and inner[-1].endswith("save_exp")
 
     def _p_clip(self, args, kw, node):
         x = as_pw(args[0])
